@@ -110,14 +110,105 @@ def describe(c, j):
     return d
 
 
+def gomod_dir(mod):
+    """directory of a dependency in the module cache, version taken from the tree's go.mod"""
+    gm = open(os.path.join(vlib.REPO, "go.mod")).read()
+    m = re.search(r"^\s*%s\s+(\S+)" % re.escape(mod), gm, re.M)
+    if not m:
+        raise vlib.Broken("module %s not in go.mod" % mod)
+    cache = os.environ.get("GOMODCACHE") or os.path.join(os.environ.get("GOPATH", os.path.expanduser("~/go")), "pkg", "mod")
+    d = os.path.join(cache, mod + "@" + m.group(1))
+    if not os.path.isdir(d):
+        raise vlib.Broken("module cache directory missing: " + d)
+    return d, m.group(1)
+
+
+def gen_consts():
+    """Gen/ECConsts.v from the library / SDK sources the tree's go.mod selects (T1 tie)."""
+    rsd, rsv = gomod_dir("github.com/klauspost/reedsolomon")
+    src = open(os.path.join(rsd, "galois.go")).read()
+    poly = int(re.search(r"generatingPolynomial\s*=\s*(\d+)", src).group(1))
+    exp = re.search(r"var expTable = \[\w+\]byte\{([^}]*)\}", src).group(1)
+    exp = [int(x, 0) for x in re.findall(r"0x[0-9a-fA-F]+|\d+", exp)]
+    mul = re.search(r"var mulTable = \[256\]\[256\]uint8\{(.*?)\}\}", src, re.S).group(1)
+    rows = [[int(x, 0) for x in re.findall(r"0x[0-9a-fA-F]+|\d+", r)] for r in mul.split("}")]
+    rows = [r for r in rows if r]
+    if len(exp) != 256 or len(rows) != 256 or any(len(r) != 256 for r in rows):
+        raise vlib.Broken("cannot parse galois.go tables")
+    sdkd, sdkv = gomod_dir("github.com/nspcc-dev/neofs-sdk-go")
+    pol = open(os.path.join(sdkd, "netmap", "policy.go")).read()
+    consts = dict(re.findall(r"^\s*(max\w+)\s*=\s*(\w+)", pol, re.M))
+
+    def val(k):
+        v = consts[k]
+        return int(v) if v.isdigit() else val(v)
+    text = ("(* GENERATED by props/C21.py from %s/galois.go and neofs-sdk-go %s netmap/policy.go. Do not edit. *)\n"
+            "From Coq Require Import NArith List.\nImport ListNotations.\nLocal Open Scope N_scope.\n"
+            "Definition lib_generating_polynomial : N := %d.\n"
+            "Definition lib_exp_table : list N := %s.\n"
+            "Definition lib_mul_table : list (list N) := [\n%s].\n"
+            "Definition sdk_max_ec_rules : nat := %d.\nDefinition sdk_max_total_ec_parts : nat := %d.\n" % (
+                os.path.basename(rsd), sdkv, poly, "[" + ";".join(map(str, exp[:255])) + "]",
+                ";\n".join("[" + ";".join(map(str, r)) + "]" for r in rows),
+                val("maxECRules"), val("maxTotalECParts")))
+    vlib.write_if_changed(os.path.join(vlib.COQ, "Gen", "ECConsts.v"), text)
+
+
+MPRELUDE = ("From NV Require Import EC.GF256 EC.LinAlg EC.RS EC.RSBuf EC.RSBufCheck.\n"
+            "From Coq Require Import NArith List. Import ListNotations.\n")
+
+
+def mats(ms):
+    return "[" + ";".join(mat(m) for m in ms) + "]"
+
+
+def mcase_lit(c):
+    return "(%s, %d, %s, %s, %s, %s, %s)" % (
+        "[" + ";".join("(%d,%d)" % (k, m) for k, m in c["rules"]) + "]", c["len"], nl(c["mem"]),
+        vlib.coq_bool(c["ok"]), mats(c["after"]), mats(c["final"]), nl(c["mem_end"]))
+
+
+def eval_multi(ctx, cases):
+    jobs, offs = [], []
+    CH = max(1, (len(cases) + 7) // 8)
+    for off in range(0, len(cases), CH):
+        lit = "[" + ";\n".join(mcase_lit(c) for c in cases[off:off + CH]) + "]"
+        jobs.append(("multi", MPRELUDE + "Definition cases : list mcase := %s.\n" % lit,
+                     {"model": "model_mismatches cases", "ref": "ref_mismatches cases"}))
+        offs.append(off)
+    bad_model, bad_ref = set(), set()
+    for off, res in zip(offs, ctx.coq_eval_many(jobs)):
+        if res is None:
+            return None
+        bad_model |= {off + i for i in res["model"]}
+        bad_ref |= {off + i for i in res["ref"]}
+    return bad_model, bad_ref
+
+
+def hist(xs):
+    h = {}
+    for x in xs:
+        h[str(x)] = h.get(str(x), 0) + 1
+    return dict(sorted(h.items(), key=lambda kv: kv[0]))
+
+
 def run(ctx):
+    gen_consts()
     ctx.prove()
-    model = ctx.model_ready(["EC/RSCheck.vo"])
+    model = ctx.model_ready(["EC/RSCheck.vo", "EC/RSBufCheck.vo"])
     binp = ctx.go_build()
+    if ctx.replay:
+        rp = json.load(open(ctx.replay))
+        seeds = {v.get("seed", ctx.seed) for v in rp.get("violations", [])} or {ctx.seed}
+        ctx.seed = sorted(seeds)[0]
+        ctx.tier = rp.get("tier", ctx.tier)
     cases = ctx.run_json([binp, "rs"])
+    mcases = ctx.run_json([binp, "multi"])
+    pcases = ctx.run_json([binp, "putmod"])
     if not model:
         ctx.tie(False)
         return
+    # tie 1+2: iec.Encode/Decode/DecodeRange/DecodeIndexes vs model, vs theorem right-hand sides
     r = eval_rs(ctx, cases)
     if r is None:
         ctx.tie(False)
@@ -127,12 +218,59 @@ def run(ctx):
         ctx.tie(not bad_model)
         ctx.tie(not bad_ref)
         for (i, j) in sorted(bad_model | bad_ref)[:10]:
-            ctx.violation({"case": describe(cases[i], j),
+            ctx.violation({"seed": ctx.seed, "case": describe(cases[i], j),
                            "disagrees_with": [w for w, s in (("model EC/RS.v", bad_model), ("reference (C21 theorem right-hand sides)", bad_ref)) if (i, j) in s]})
+    # tie 3+4: several rules from one slice (len, cap) vs buffer model, vs reference
+    r = eval_multi(ctx, mcases)
+    if r is None:
+        ctx.tie(False)
+        ctx.tie(False)
+    else:
+        bad_model, bad_ref = r
+        ctx.tie(not bad_model)
+        ctx.tie(not bad_ref)
+        for i in sorted(bad_model | bad_ref)[:10]:
+            c = mcases[i]
+            ctx.violation({"seed": ctx.seed, "case": {"what": "iec.Encode under several rules on one slice", "rules": c["rules"], "len": c["len"],
+                                                       "cap": len(c["mem"]), "mem": c["mem"]},
+                           "impl_parts_after_each_call": c["after"], "impl_parts_at_end": c["final"],
+                           "disagrees_with": [w for w, s in (("model EC/RSBuf.v", bad_model), ("reference (pure encoding kept)", bad_ref)) if i in s]})
+    # tie 5: the real caller (slicer -> modifyECParentObject): cap == len at encode time (C21_caller_buffer_exact)
+    # and every rule's kept parts equal a fresh encoding of a private copy of the payload
+    bad = [c for c in pcases if c["err"] or c["objects"] == 0 or c["lens"] != c["caps"]
+           or not all(c["payload_ok"]) or not all(c["parts_ok"])]
+    ctx.tie(not bad)
+    for c in bad[:5]:
+        ctx.violation({"seed": ctx.seed, "case": dict(c, what="putsvc slicer -> distributedTarget.modifyECParentObject"),
+                       "expected": "cap(objectPayload) == len(objectPayload) and parts of every rule == iec.Encode(copy of payload)"})
     nops = sum(len(c["ops"]) for c in cases)
+    keys = set()
+    for c in cases:
+        if not c["data"]:
+            continue
+        for o in c["ops"]:
+            if o["trunc"] < 0 and not all(o["mask"]):
+                keys.add((c["k"], c["m"], len(c["data"]), o["kind"], tuple(o["mask"]), o["from"], o["to"], tuple(o["idxs"])))
+    mkeys = {(tuple(map(tuple, c["rules"])), c["len"], len(c["mem"])) for c in mcases if len(c["rules"]) > 1 and c["len"] > 0}
     ctx.cov.update({
-        "evaluations": len(cases) + nops,
-        "distinct_nontrivial": 0,
-        "rule": "",
-        "samples": [],
+        "evaluations": len(cases) + nops + len(mcases) + len(pcases),
+        "distinct_nontrivial": len(keys) + len(mkeys) + len({(tuple(map(tuple, c["rules"])), c["len"], c["limit"], c["chunk"]) for c in pcases if len(c["rules"]) > 1}),
+        "rule": "rs: all 40 rules k=1..8,m=0..4 x payload lengths {0,1,k-1,k,k+1,2k+1,random small,random big}; every erasure pattern with <= m+1 "
+                "missing parts for small rules (k+m<=6, thorough <=8), random patterns otherwise, one malformed (truncated) part set per case; "
+                "op = Decode | DecodeRange | DecodeIndexes. multi: 1..4 random rules on one slice with cap=len or spare capacity. putmod: real slicer "
+                "+ modifyECParentObject. Non-trivial = non-empty payload with at least one part erased (rs), >= 2 rules and non-empty payload (multi, putmod); "
+                "distinct by (rule, length, op, mask, arguments) resp. (rules, len, cap) resp. (rules, len, limit, chunk).",
+        "samples": [{"k": c["k"], "m": c["m"], "data": c["data"], "parts": c["parts"], "ops": c["ops"][:2]} for c in cases if 0 < len(c["data"]) <= 9][5:7]
+                   + [c for c in mcases if c["len"] < 8 and len(c["rules"]) > 1][:1] + pcases[:1],
+        "traces_validated_against_impl": len(cases) + nops + len(mcases) + len(pcases),
+        "hist_rule": hist("%d/%d" % (c["k"], c["m"]) for c in cases),
+        "hist_payload_len_bucket": hist(min(len(c["data"]).bit_length(), 13) for c in cases),
+        "hist_op_kind": hist(o["kind"] for c in cases for o in c["ops"]),
+        "hist_missing_parts": hist(o["mask"].count(False) for c in cases for o in c["ops"]),
+        "hist_op_ok": hist(o["ok"] for c in cases for o in c["ops"]),
+        "hist_multi_spare_capacity": hist("cap=len" if len(c["mem"]) == c["len"] else "cap>len" for c in mcases),
+        "hist_multi_rules": hist(len(c["rules"]) for c in mcases),
+        "hist_putmod_objects": hist(c["objects"] for c in pcases),
+        "multi_hazard_cases_seen": sum(1 for c in mcases if c["after"] != c["final"]),
+        "mds_rule_subset_pairs_decided_in_coq": "see EC/RSMds.v all_rules_checked (40 rules, every k-subset of rows)",
     })
